@@ -455,8 +455,8 @@ const InstDB::InstInfo InstDB::_inst_info_table[] = {
   INST(Minps            , ExtRm              , O(000F00,5D,_,_,_,_,_,_  ), 0                         , 5  , 0  , 6  , 6  ), // #406
   INST(Minsd            , ExtRm              , O(F20F00,5D,_,_,_,_,_,_  ), 0                         , 6  , 0  , 7  , 5  ), // #407
   INST(Minss            , ExtRm              , O(F30F00,5D,_,_,_,_,_,_  ), 0                         , 7  , 0  , 8  , 6  ), // #408
-  INST(Monitor          , X86Op              , O(000F01,C8,_,_,_,_,_,_  ), 0                         , 23 , 0  , 119, 92 ), // #409
-  INST(Monitorx         , X86Op              , O(000F01,FA,_,_,_,_,_,_  ), 0                         , 23 , 0  , 119, 93 ), // #410
+  INST(Monitor          , X86Op_MemZAX       , O(000F01,C8,_,_,_,_,_,_  ), 0                         , 23 , 0  , 119, 92 ), // #409
+  INST(Monitorx         , X86Op_MemZAX       , O(000F01,FA,_,_,_,_,_,_  ), 0                         , 23 , 0  , 119, 93 ), // #410
   INST(Mov              , X86Mov             , 0                         , 0                         , 0  , 0  , 120, 94 ), // #411
   INST(Movabs           , X86Movabs          , 0                         , 0                         , 0  , 0  , 121, 0  ), // #412
   INST(Movapd           , ExtMov             , O(660F00,28,_,_,_,_,_,_  ), O(660F00,29,_,_,_,_,_,_  ), 4  , 45 , 122, 95 ), // #413
